@@ -19,7 +19,7 @@ def check(run):
     trace = os.path.join(run.work, "trace.ndjson")
     core.run_rs("c18", [vec_path, trace])
     events = core.read_ndjson(trace)
-    if len(events) != len(vectors):
+    if len(events) != 3 * len(vectors):
         raise core.ToolError("harness dropped vectors")
     rejected, results = core.validate_sharded("trace/Trace_GpsTime", events, run.work, timeout=1800)
     for r in results:
@@ -33,6 +33,7 @@ def check(run):
     run.cov.update({
         "traces_validated_against_impl": len(results),
         "vectors_from_tlc": len(vectors),
+        "call_orders": ["as generated", "reversed", "alternating from both ends"],
         "events_validated": len(events),
         "rejected_events": len(rejected),
         "exhaustive": False,
